@@ -10,7 +10,7 @@ from vf.props.e2e import outcome_label, spec_summary
 def profile(tier):
     return Profile(vrl='mixed', max_frames=2, max_channels=5, max_rows=40, max_width=24,
                    layouts=('C', 'F', 'strided', 'neg', 'ro', 'view'), specials=True, casts=True, chunks=True,
-                   sources=('inline', 'dict', 'struct') if tier == 'quick' else ('inline', 'dict', 'struct', 'hdf5'),
+                   sources=('inline', 'dict', 'struct', 'hdf5'),
                    units=False)
 
 
